@@ -66,6 +66,9 @@ class C11(PropBase):
     def junk(self, rng, files, dirs):
         """non-conforming paths, as (relative-to-root path, kind): the same junk is injected into every tree"""
         out = []
+        for dd in dirs[:16]:
+            d, f = posixpath.split(dd)
+            out.append((d + '/.' + f + '.data.json', 'json'))          # every folder entity has a (hidden) sidecar next to it
         for _ in range(rng.randint(2, 6)):
             r = rng.random()
             if r < 0.35 and files:
@@ -82,9 +85,13 @@ class C11(PropBase):
                 out.append((rng.choice(files) + rng.choice(['.bak', '~', '.tmp', '.ma.swp']), 'empty'))                  # misnamed
             elif r < 0.75 and dirs:
                 out.append((rng.choice(dirs) + '/' + rng.choice(['stray dir', 'tmp#1', '.hidden', 'Thumbs.db']), 'dir'))
-            elif r < 0.9 and files:
-                d, f = posixpath.split(rng.choice(files))
-                out.append((d + '/.' + posixpath.splitext(f)[0] + '.data.json', 'json'))                               # sidecar
+            elif r < 0.9 and (files or dirs):
+                if files and rng.random() < 0.5:
+                    d, f = posixpath.split(rng.choice(files))
+                    out.append((d + '/.' + posixpath.splitext(f)[0] + '.data.json', 'json'))                           # sidecar of a file
+                else:
+                    d, f = posixpath.split(rng.choice(dirs))
+                    out.append((d + '/.' + f + '.data.json', 'json'))                                                  # sidecar of a folder entity
             else:
                 out.append((rng.choice(['HAMLET2/PROD', 'zzz/PROD/ASSETS', 'HAMLET/prod']), 'dir'))
         return out
@@ -102,7 +109,7 @@ class C11(PropBase):
             if c.stream == 'paths' and o[0] == 'ok' and o[1]:
                 per_u.setdefault(c.meta['u'], {}).setdefault(c.meta['cfg'], {})[c.meta['sid']] = o[1][0]
         more = []
-        ns = 14 if tier == 'quick' else 40
+        ns = 20 if tier == 'quick' else 44
         self.entity_lists = {}
         for ui in range(self.nu):
             ent = per_u.get(ui, {})
@@ -135,6 +142,24 @@ class C11(PropBase):
                 for qi in range(ns):
                     if qi == 1 and ui in self.targets:
                         q = self.targets[ui]
+                    elif qi == 7:
+                        files = [e for e in L if is_file(e)]
+                        base = rng.choice(files or L).split('/')
+                        q = '/'.join(base[:-2] + ['*']) if len(base) > 3 else '/'.join(base)       # the state level (no path template): constants
+                    elif qi in (8, 9, 10, 11, 12, 13, 14, 15):
+                        base = rng.choice(L).split('/')
+                        q = '/'.join(base[:-1] + ['*']) if len(base) > 1 else base[0]             # siblings of an entity
+                    elif qi in (2, 3, 5):
+                        base = rng.choice(L).split('/')
+                        k = rng.randint(min(2, len(base)), len(base))
+                        q = '/'.join(base[:k] + ['*'] * rng.choice([1, 1, 2]))      # children / grand-children level, incl. levels without path
+                    elif qi == 6:
+                        base = rng.choice(L).split('/')
+                        if len(base) > 5:
+                            base[5] = '>'
+                            q = '/'.join(base[:6] + ['*'] * (len(base) - 6))
+                        else:
+                            q = '/'.join(base)
                     elif qi % 4 == 0:
                         # a literal open value followed by stars
                         base = rng.choice(L).split('/')
@@ -208,6 +233,10 @@ class C11(PropBase):
                 if sorted(lst) != res['paths:' + default]:
                     fails.append((d['paths:' + default][0], d['paths:' + default][1],
                                   'FindInPaths(%s).find(%r) = %r but the list of existing Sids gives %r' % (default, q, res['paths:' + default], sorted(lst))))
+            if '>' in q and ls.plain(q) and utypes and utypes <= path_types[default]:
+                if res['list'] != res['paths:' + default]:
+                    fails.append((d['paths:' + default][0], d['paths:' + default][1],
+                                  "'>' search %r: FindInPaths gives %r, FindInList over the same entities %r" % (q, res['paths:' + default], res['list'])))
             # FindInAll = FindInPaths when every unfolded type is served by the path finder
             if utypes and utypes <= routed_paths:
                 if res['all'] != res['paths:' + default]:
